@@ -109,7 +109,7 @@ func firstCrashPoints(d *Decoded, max int) []int {
 func ExploreDouble(h *History, d *Decoded, ops []Op, root, dir, tier string) []DoubleCrash {
 	maxK1, maxJ := 3, 80
 	if tier == "thorough" {
-		maxK1, maxJ = 10, 400
+		maxK1, maxJ = 5, 150
 	}
 	var res []DoubleCrash
 	for _, k1 := range firstCrashPoints(d, maxK1) {
